@@ -546,7 +546,9 @@ class Session:
             if k is not None:
                 ob.known = k
                 known_reported.append({"obligation": ob.id, "what": k.get("what", k.get("observed", ""))})
-                lines.append(f"KNOWN-FINDING: property={self.prop} {ob.id}: {k.get('what', '')}")
+                line = f"KNOWN-FINDING: property={self.prop} {k.get('obligation')}: {k.get('what', '')}"
+                if line not in lines:
+                    lines.append(line)
                 continue
             n += 1
             violations += 1
